@@ -273,5 +273,5 @@ LEMMAS["C15"] = ["with O-C04 (is_legal == legality) and O-C02/C03/C10 (play_unch
 LEMMAS["C11"] = ["L-C11: by C10 (hash == XOR of KEY over the features present, writer contracts + feature accounting) hash(a) ^ hash(b) = XOR of KEY over the symmetric difference of the two feature sets; the feature -> table-entry map is injective (distinct indices of the table, O-C10.writer.* pin the indexing); for 1..4 differing features the XOR is non-zero by indep4 of the dumped table"]
 LEMMAS["C10"] = ["L-lin: if positions p, q agree outside a set S of squares then spec_hash(q) ^ spec_hash(p) = XOR over s in S of (KEY(p at s) ^ KEY(q at s)) ^ rest(p) ^ rest(q) (XOR is associative/commutative; equal terms cancel). With O-C10.play.* / O-C10.null (hash delta == that sum, real arithmetic) and O-C10.ctor.* (constructors establish hash == spec_hash) the invariant hash == spec_hash(position) holds along every history (L-hist)",
                  "L-hist: induction over the history: constructors establish INV (O-C09.build, O-C10.ctor.build), play_unchecked and null_move preserve it (O-C02/C03/C06.inv-preserved/C10.play, O-C14.null/O-C10.null)"]
-LEVEL = {"C08": "model_checking", "C20": "model_checking", "C07": "model_checking"}
+LEVEL = {"C08": "model_checking"}
 ASSUME = {}
